@@ -10,7 +10,8 @@
   requests
     save <Doc>                                            → ok <listing>
     hist <Doc root> <npool> {Doc} <nops> {<parent> <child> <name|~>}
-                                                          → ok ordered=<0|1> R {<child> <ref> <resolves 0|1>} ; <listing>
+                                                          → ok parentsFirst=<0|1> R {<child> <ref> <resolves 0|1> | E} ; <listing>
+                                                            (E = that addObject call raised ValueError)
     load <mimetype|~> <nman> {<path> <mediatype>} <nmem> {<name> <bytes>} <nset> {<name>}
                                                           → ok <Doc> ; <listing of save (load p)>
   listing:  {Z <name> <S|D> <extra> <content>} {M <path> <mediatype> <F|f>}
@@ -122,6 +123,14 @@ partial def showDoc (d : Doc) : String :=
     ++ d.pictures.map showPic ++ [showOpt (d.thumbnail.map (·.content)), Wire.enc ((d.thumbnail.map (·.mediatype)).getD []), toString d.extras.length] ++ d.extras.map showExtra
     ++ [Wire.enc d.folder, toString d.children.length] ++ d.children.map showDoc)
 
+/-- runs the ops one by one; a ValueError is reported as `E` for that op and the history goes on -/
+def runOps (h : Hist) : List Op → List Bool → Option (Hist × List Bool)
+  | [], acc => some (h, acc.reverse)
+  | op :: ops, acc => match step h op with
+    | .ok h' => runOps h' ops (true :: acc)
+    | .valueError => runOps h ops (false :: acc)
+    | .unsupported => none
+
 def pHist : P String := do
   let root ← pDoc
   let np ← pNat
@@ -129,14 +138,18 @@ def pHist : P String := do
   let no ← pNat
   let ops ← pMany pOp no
   let h0 : Hist := ⟨root, pool, []⟩
-  match run h0 ops with
+  match runOps h0 ops [] with
   | none => pure "err unsupported"
-  | some h =>
+  | some (h, oks) =>
     let out := save h.root
-    let refs := h.refs.map (fun (c, mt, r) =>
-      toString c ++ " " ++ Wire.enc r ++ " " ++ (if refResolves out r c mt then "1" else "0"))
-    pure ("ok ordered=" ++ (if ordered h0 ops then "1" else "0") ++ " R "
-          ++ String.intercalate " " refs ++ " ; " ++ showOut out)
+    let rec fmt : List Bool → List (Nat × Str × Str) → List String
+      | [], _ => []
+      | false :: bs, rs => "E" :: fmt bs rs
+      | true :: bs, (c, mt, r) :: rs =>
+        (toString c ++ " " ++ Wire.enc r ++ " " ++ (if refResolves out r c mt then "1" else "0")) :: fmt bs rs
+      | true :: _, [] => ["?"]
+    pure ("ok parentsFirst=" ++ (if parentsFirst h0 ops then "1" else "0") ++ " R "
+          ++ String.intercalate " " (fmt oks h.refs) ++ " ; " ++ showOut out)
 
 def pLoad : P String := do
   let mt ← pOptStr
